@@ -24,7 +24,7 @@ CHECKS = {
     "C02": dict(
         category="model_checking",
         technique="TLC model checking of DecodeRefines (View.tla vs SbeImage.tla) + replay of every image through every generated getter",
-        text="SbeImage.tla is an independent encoder; every explored image is decoded by every getter (fields, composite members at any depth, arrays, enums, sets and every declared set choice, group sizes, entries, data) of the real generated classes on a read-only, exact-size, guard-paged buffer and compared bit-exactly.",
+        text="SbeImage.tla is an independent encoder; every explored image is decoded by every getter (fields, composite members at any depth, arrays, enums, sets and every declared set choice, group sizes, entries, data) of the real generated classes on a read-only, exact-size, guard-paged buffer and compared bit-exactly; replayed against the checked flavour of the library and against the unchecked one (SBEPP_DISABLE_ASSERTS).",
         note="Same scope as C01. Float/double values are opaque byte patterns (all-zero, all-ones, asymmetric), which covers NaN payload bit-exactness as byte equality.",
         design="5/C02"),
     "C03": dict(
@@ -101,7 +101,7 @@ CHECKS = {
     "C08": dict(
         category="model_checking",
         technique="TLC model checking of Rules.tla/SchemaGen.tla (Break breaks the named rule, Boundary stays valid, Valid => NoOverlap /\\ MembersInsideBlock) + every TLC-generated schema mutant run through the real sbeppc",
-        text="25 named rules; every single rule-breaking edit and nearest valid edit at every applicable position of 6 (quick) / 21 (thorough) base schemas; verdict from TLC evaluating Valid on the mutated record vs exit status, located diagnostic, empty output dir of the real sbeppc; the states about names and references are additionally distributed over files (Files.tla: 11 xi:include plans, SplitKeepsVerdict model-checked) and must get the same verdict; plus the repository's error corpus.",
+        text="27 named rules (incl. R_DataLayout: a data header is `length` immediately followed by `varData`; R_Unique.valuenum: the values of one enum are pairwise different as numbers); every single rule-breaking edit and nearest valid edit at every applicable position of 6 (quick) / 21 (thorough) base schemas; verdict from TLC evaluating Valid on the mutated record vs exit status, located diagnostic, empty output dir of the real sbeppc; the states about names and references are additionally distributed over files (Files.tla: 11 xi:include plans, SplitKeepsVerdict model-checked) and must get the same verdict; plus the repository's error corpus.",
         note="Trusts TLC; decimal-string representability; references written in the exact case of the definition.",
         design="5/C08"),
     "C18": dict(
